@@ -37,8 +37,20 @@ def make_tripwire(name, func):
     return fn
 
 
+def make_constant_rule(name, values):
+    """A user rule `name(p_id)` that returns the given column (skip_vectorization)."""
+    from _gettsim.shared import policy_info
+
+    ns = {"VALUES": np.asarray(values), "numpy": np}
+    exec(f"def {name}(p_id: numpy.ndarray[int]) -> numpy.ndarray[float]:\n    return VALUES\n", ns)  # noqa: S102
+    fn = ns[name]
+    fn.__info__ = {"skip_vectorization": True}
+    return fn
+
+
 def task(arg):
-    date_iso, names, subset = arg
+    date_iso, names, subset = arg[:3]
+    deep = arg[3] if len(arg) > 3 else False
     out = Partial()
     year = int(date_iso[:4])
     df = popgen.frame(popgen.combined(names, year))
@@ -93,7 +105,7 @@ def task(arg):
         # the columns of that run - it must have seen the marker, not a value computed internally
         col = full[n].to_numpy()
         if col.dtype.kind in "fiu" and not n.endswith("_id") and n in dag:
-            marker = col + 1 if col.dtype.kind in "iu" else col + 1.0
+            marker = col + 1 if col.dtype.kind in "iu" else col + 1.37  # off every statutory grid: a supplied column must not be rounded
             d3 = df.copy()
             d3[n] = marker
             succ = [t for t in dag.successors(n) if t in nodes][:4]
@@ -123,6 +135,26 @@ def task(arg):
                 except Exception as e:  # noqa: BLE001
                     out.count("marker_runs_raising")
                     out.setadd("marker_run_errors", f"{n}:{type(e).__name__}")
+            # for a policy rule: supplying the marker column must be equivalent, on EVERY other node (indirect consumers, time-unit
+            # siblings, group aggregates), to replacing the rule by a user function that returns the marker
+            if n in f and deep and col.dtype.kind == "f":
+                try:
+                    const = make_constant_rule(n, marker)
+                    tg = [t for t in nodes if t != n]
+                    with warnings.catch_warnings():
+                        warnings.simplefilter("ignore")
+                        a = compute_taxes_and_transfers(d3, p, f, targets=tg)
+                        b = compute_taxes_and_transfers(df, p, [f, {n: const}], targets=tg, rounding=True)
+                    out.step(2)
+                    keys = list(range(len(df)))
+                    info = getattr(f[n], "__info__", {}) or {}
+                    if not info.get("params_key_for_rounding"):
+                        for c2, kind, detail in sim.compare_results(b, a, keys, keys, ulps=0, check_dtype=False)[:5]:
+                            out.violation(f"supplied-column-differs-from-replaced-rule:{c2}<-{n}", {**case, "column": c2},
+                                          f"{c2} differs between supplying {n} (marker values) as data and replacing rule {n} by a function returning them ({kind}: {detail})")
+                except Exception as e:  # noqa: BLE001
+                    out.count("constant_rule_runs_raising")
+                    out.setadd("constant_rule_errors", f"{n}:{type(e).__name__}:{str(e)[:40]}")
     out.sample({"date": date_iso, "households": names, "nodes": subset[:4]}, limit=1)
     return out.dump()
 
@@ -146,7 +178,7 @@ def run(tier):
             except Exception:  # noqa: BLE001
                 continue
             for k in range(0, len(nodes), 6):
-                tasks.append((d, pop, nodes[k : k + 6]))
+                tasks.append((d, pop, nodes[k : k + 6], thorough or d == dates[-1]))
     for part in harness.pmap(task, harness.rotate(tasks)):
         rep.merge(part)
     rep.bound = {"dates": dates, "populations": pops}
